@@ -46,11 +46,53 @@ func c06Gen(r *Rand, tier string) interface{} {
 			in.Commits = append(in.Commits, i)
 		}
 	}
-	if r.Chance(1, 2) {
-		in.Steer = true
+	in.Steer = r.Chance(1, 2)
+	// drawn after everything else: a recursive removal of a remote directory, a node below it
+	// created again and then removed node by node, all within reach of one Commit (the replay
+	// order of the removal journals matters only for such overlapping paths)
+	if r.Chance(1, 6) {
+		c06RemoveRecreateRemove(r, in)
+	}
+	if in.Steer {
 		in.Ops = steerCacheOps("C06", in.Remote, in.Ops)
 	}
 	return in
+}
+
+func c06RemoveRecreateRemove(r *Rand, in *cacheIn) {
+	d, s, f := poolName(r), poolName(r), poolName(r)
+	sub := d + "/" + s
+	for _, p := range []string{d, sub} {
+		if _, isFile := in.Remote.Files[p]; isFile {
+			return
+		}
+	}
+	for _, p := range in.Remote.Dirs {
+		if p == sub+"/"+f {
+			return
+		}
+	}
+	in.Remote.Files[sub+"/"+f] = "r:motif"
+	motif := []FsOp{{Kind: "RemoveAll", Path: []string{d, sub}[r.Intn(2)]}}
+	if r.Chance(1, 2) {
+		motif = append(motif, FsOp{Kind: "MkdirAll", Path: sub})
+	} else {
+		g := sub + "/" + poolName(r)
+		motif = append(motif, FsOp{Kind: "WriteFile", Path: g, Data: "#m:w"}, FsOp{Kind: "Remove", Path: g})
+	}
+	motif = append(motif, FsOp{Kind: "Remove", Path: sub})
+	// interleaved with the random operations, order kept
+	out := make([]FsOp, 0, len(in.Ops)+len(motif))
+	rest := in.Ops
+	for len(motif) > 0 || len(rest) > 0 {
+		if len(rest) == 0 || (len(motif) > 0 && r.Chance(1, 2)) {
+			out, motif = append(out, motif[0]), motif[1:]
+		} else {
+			out, rest = append(out, rest[0]), rest[1:]
+		}
+	}
+	// (intermediate Commit indexes stay valid: the history only grew)
+	in.Ops = out
 }
 
 type c06Exec struct {
